@@ -29,8 +29,8 @@ SHRINK_WALL_S = 90
 MAX_REPORTS = 4
 
 TIERS = {
-    "quick": {"H": 150, "F": 90, "T": 420},
-    "thorough": {"H": 24000, "F": 9000, "T": 100000},
+    "quick": {"H": 150, "F": 90, "T": 420, "S": 48},
+    "thorough": {"H": 24000, "F": 9000, "T": 100000, "S": 3000},
 }
 INJECT_W = streams.INJECT_KINDS_WRITE
 INJECT_R = streams.INJECT_KINDS_READ
@@ -39,11 +39,11 @@ INJECT_R = streams.INJECT_KINDS_READ
 def plan(tier: str, seed: int, scale: float = 1.0) -> list[dict]:
     cfg = TIERS[tier]
     tasks = []
-    for layer in ("H", "F", "T"):
+    for layer in ("H", "F", "T", "S"):
         n = max(4, int(cfg[layer] * scale))
-        per = {"H": 5, "F": 3, "T": 14}[layer]
+        per = {"H": 5, "F": 3, "T": 14, "S": 2}[layer]
         for i in range(0, n, per):
-            tasks.append({"seed": seed, "layer": layer, "first": i, "count": min(per, n - i)})
+            tasks.append({"seed": seed, "layer": layer, "first": i, "count": min(per, n - i), "tier": tier})
     return tasks
 
 
@@ -71,6 +71,16 @@ def _float_classes() -> list[type]:
     if _floaty is None:
         _floaty = [c for c in universe.load() if "float64" in universe.features(c)]
     return _floaty
+
+
+_nullstruct = None
+
+
+def _nullable_struct_classes() -> list[type]:
+    global _nullstruct
+    if _nullstruct is None:
+        _nullstruct = [c for c in universe.load() if "nullable_struct" in universe.features(c)]
+    return _nullstruct
 
 
 def choose_pool(rng, lo: int = 3, hi: int = 10) -> list[type]:
@@ -104,6 +114,8 @@ def choose_pool(rng, lo: int = 3, hi: int = 10) -> list[type]:
         add(rng.choice(tagged))
     if rng.random() < 0.2:
         add(rng.choice(_float_classes()))
+    if rng.random() < 0.2:
+        add(rng.choice(_nullable_struct_classes()))
     rng.shuffle(pool)
     pool = pool[:max(lo, want)]
     return pool
@@ -387,6 +399,11 @@ def _after_check(wl: Workload, ci: int, ii: int, others: list, cache: dict, full
     """After a failed call: the same cached closure (and a freshly requested
     one - the cache hands out the same object) must still produce goldens."""
     todo = [["enc", ci, ii, 1], ["dec", ci, ii, 1]]
+    # a different message of the SAME class through the same cached closure: state
+    # left behind by the failed call shows when the next message lacks what the last one had
+    for j in range(len(wl.gold[ci])):
+        if j != ii and wl.gold[ci][j] is not None:
+            todo += [["dec", ci, j, 1], ["enc", ci, j, 1]]
     if full:
         todo += [[k, c, i, 1] for (c, i) in others for k in ("enc", "dec")]
 
@@ -706,6 +723,56 @@ def run_task(task: dict) -> dict:
                 if len(samples) < 1:
                     samples.append({"layer": "F", "class": wl.pool[ci], "write_calls": wl.gold[ci][ii][2], "read_calls": wl.gold[ci][ii][3],
                                     "faults_injected": n_faults, "siblings_checked_after_each_8th_fault": [wl.pool[c] for c, _ in others]})
+        elif layer == "S":
+            # systematic single-pre-emption sweep: thread A makes the FIRST use of a cold
+            # codec and is pre-empted at line step j; thread B then makes a complete
+            # first use of the same codec; A resumes.  Every j (sampled when large).
+            r = rng.random()
+            if r < 0.3:
+                cls = rng.choice(_nullable_struct_classes())
+            elif r < 0.6:
+                cls = rng.choice([c for c in universe.load() if universe.has_tagged_fields(c)])
+            elif r < 0.7:
+                cls = rng.choice(_float_classes())
+            else:
+                cls = rng.choice(universe.load())
+            shape = {**gen.draw_shape(rng), "null_rate": 0.1, "nondefault_rate": 0.9}
+            if shape["name"] in ("big", "long_array"):
+                shape = {**shape, "str": "small", "long_arrays": 0}
+            trees = [[gen.to_tree(gen.gen_instance(rng, cls, shape)) for _ in range(2)]]
+            wl = Workload([universe.qualname(cls)], trees)
+            wl.compute_goldens(stats)
+            if wl.gold[0][0] is None:
+                continue
+            ii_b = 1 if wl.gold[0][1] is not None and rng.random() < 0.5 else 0
+            op_a = [rng.choice(("enc", "dec")), 0, 0, 1]
+            op_b = [op_a[0] if rng.random() < 0.6 else rng.choice(("enc", "dec")), 0, ii_b, 1]
+            programs = [[op_a], [op_b]]
+            n_a = forkrun.run(_dryrun_child, wl.to_json(), wl.gold, [[op_a]])
+            cap = 200 if task.get("tier", "quick") == "quick" else 2500
+            js = _indices(rng, n_a, cap)
+            found = None
+            for j in js:
+                forced = [[-1, 0, "start"], [j + 1, 1], [0, 0, "exit"]]
+                res = forkrun.run(_threads_child, wl.to_json(), wl.gold, programs, {"kind": "forced", "p": 0.0}, 0, forced, 400_000)
+                stats.inc("evaluations")
+                stats.inc("sweep_preemption_points")
+                stats.inc("thread_steps", res["steps"])
+                stats.inc("thread_switches", 1)
+                distinct.add((wl.pool[0], op_a[0], op_b[0], j))
+                if res["fail"] is not None and found is None:
+                    found = (j, res["fail"])
+                    break
+            stats.inc("sweeps")
+            stats.inc("sweep_points_all" if len(js) == n_a else "sweep_points_sampled")
+            if found is not None:
+                j, f = found
+                report(f["signature"], run_seed, {"layer": "T", "workload": wl.to_json(), "programs": programs,
+                                                            "schedule": [[-1, 0, "start"], [j + 1, 1], [0, 0, "exit"]], "step_cap": 400_000})
+            log.add("S", idx, wl.pool[0], op_a[0], op_b[0], n_a, len(js), found and [found[0], found[1]["signature"]])
+            if len(samples) < 1:
+                samples.append({"layer": "S", "class": wl.pool[0], "thread_A_first_use": op_a[0], "thread_B_complete_first_use": op_b[0],
+                                "line_steps_of_A": n_a, "preemption_points_tried": len(js)})
         else:
             wl = make_workload(rng, stats, lo=2, hi=5)
             if not wl.usable():
@@ -757,6 +824,9 @@ def evaluate(scenario: dict):
                           scenario["plan_seed"], scenario["only"], timeout_s=600)
         return res["fail"]["signature"] if res["fail"] else None
     if layer == "T":
+        if any(wl.gold[op[1]][op[2]] is None for prog in scenario["programs"] for op in prog if len(op) > 2 and isinstance(op[2], int) and op[2] >= 0
+               and op[0] in ("enc", "dec")):
+            return None
         res = forkrun.run(_threads_child, wl.to_json(), wl.gold, scenario["programs"],
                           {"kind": "forced", "p": 0.0, "opcodes": bool(scenario.get("opcodes"))}, 0,
                           scenario["schedule"], scenario.get("step_cap", 400_000), timeout_s=600)
@@ -828,6 +898,7 @@ def finalize(stats, tier, runs, distinct, samples, wall):
         "rule": "H: one evaluation = one op of a history executed in a fresh fork and compared with the isolated golden (distinct = distinct (pool, op list)); "
                 "F: one evaluation = one injected fault (I/O error at write/read call index i, interrupt at line step j warm or during cold closure construction) "
                 "followed by golden re-checks (distinct = fault points, each a distinct (instance, phase, index)); "
+                "S: one evaluation = thread A pre-empted at line step j of its first (cold) use of a codec while thread B makes a complete first use of the same codec - every j per sweep, sampled above a cap (distinct = (class, ops, j)); "
                 "T: one evaluation = one scheduled multi-thread run from cold caches (distinct = distinct hashes of the switch sequence (step, thread, file:line); non-trivial = at least one pre-emption)",
         "samples": samples,
         "exhaustive": False,
@@ -842,6 +913,8 @@ def finalize(stats, tier, runs, distinct, samples, wall):
         "distinct_interleavings": stats.get("distinct_T", 0),
         "distinct_interleavings_measure": "sha256 of the switch list [(step index, next thread)] + first 64 switch sites (file:line)",
         "policies": {k: v for k, v in sorted(stats.items()) if k.startswith("policy_")},
+        "systematic_sweeps": {"sweeps": stats.get("sweeps", 0), "preemption_points": stats.get("sweep_preemption_points", 0),
+                              "sweeps_with_every_point": stats.get("sweep_points_all", 0), "sweeps_sampled": stats.get("sweep_points_sampled", 0)},
         "probes": {k: v for k, v in sorted(stats.items()) if k.startswith("probe_")},
         "forks": {"golden": stats.get("golden_forks", 0), "history": stats.get("history_forks", 0)},
         "discarded_by_prepass": stats.get("discarded_by_prepass", 0),
